@@ -1,16 +1,21 @@
 package props
 
 import (
+	"context"
 	"fmt"
 	"strings"
+	"sync"
 	"time"
 
 	"github.com/indexsupply/shovel/jrpc2"
+	"github.com/indexsupply/shovel/shovel"
 	"github.com/indexsupply/shovel/shovel/config"
 	"github.com/indexsupply/shovel/wpg"
+	"github.com/jackc/pgx/v5/pgxpool"
 
 	"verifharness/core"
 	"verifharness/fakepg"
+	"verifharness/simnode"
 )
 
 func init() {
@@ -20,6 +25,9 @@ func init() {
 
 func runC02(e *core.Env) error {
 	r := e.Rand
+	for s := 0; s < e.N(4, 12); s++ {
+		managerAhead(e, s)
+	}
 	nHist := e.N(10, 120)
 	for h := 0; h < nHist && !e.OverBudget(); h++ {
 		rr := r.Fork()
@@ -151,4 +159,162 @@ func runC02(e *core.Env) error {
 		w.close()
 	}
 	return nil
+}
+
+
+// atomMon watches EVERY committed state of the fake PostgreSQL (after each COMMIT and each autocommitted
+// statement): in each of them, every row of an integration table lies at or below the newest recorded
+// position of its (source, integration) pair — "in every database state another session can observe".
+type atomMon struct {
+	mu    sync.Mutex
+	first string
+	seen  int
+}
+
+func watchAtomicity(pg *fakepg.Server) *atomMon {
+	m := &atomMon{}
+	num := func(v fakepg.Value) (uint64, bool) {
+		var n uint64
+		_, err := fmt.Sscan(fmt.Sprint(v), &n)
+		return n, err == nil
+	}
+	pg.SetCommitHook(func(db *fakepg.DB) {
+		m.mu.Lock()
+		defer m.mu.Unlock()
+		m.seen++
+		if m.first != "" {
+			return
+		}
+		top := map[string]uint64{}
+		has := map[string]bool{}
+		for _, r := range db.RowsOf("shovel.task_updates") {
+			k := fmt.Sprint(r["src_name"]) + "/" + fmt.Sprint(r["ig_name"])
+			if n, ok := num(r["num"]); ok {
+				has[k] = true
+				top[k] = max(top[k], n)
+			}
+		}
+		for _, name := range db.TableNames() {
+			if strings.HasPrefix(name, "shovel.") {
+				continue
+			}
+			for _, r := range db.RowsOf(name) {
+				bn, ok := num(r["block_num"])
+				if !ok || r["src_name"] == nil || r["ig_name"] == nil {
+					continue
+				}
+				k := fmt.Sprint(r["src_name"]) + "/" + fmt.Sprint(r["ig_name"])
+				if !has[k] || bn > top[k] {
+					m.first = fmt.Sprintf("committed state %d: table %s holds a row of %s for block %d, the newest recorded position of that pair is %d (recorded: %v)", m.seen, name, k, bn, top[k], has[k])
+					return
+				}
+			}
+		}
+	})
+	return m
+}
+
+func (m *atomMon) verdict() string {
+	m.mu.Lock()
+	defer m.mu.Unlock()
+	if m.first != "" {
+		return m.first
+	}
+	return "ok"
+}
+
+// managerAhead: the program's own loop (Manager.runTask) while the source falls BEHIND the recorded
+// position (a shorter chain behind the same URL), with and without a database fault just then, and the
+// source growing again afterwards. Every committed state is watched; at the end the table must be the
+// projection of the canonical chain.
+func managerAhead(e *core.Env, s int) {
+	ctx := context.Background()
+	verdict := func() string {
+		pg := fakepg.New()
+		url, _ := pg.Start()
+		pool, err := pgxpool.New(ctx, url)
+		if err != nil {
+			return "setup: " + err.Error()
+		}
+		node := simnode.NewNode(transferChain(9, uint64(80+s)))
+		defer func() {
+			node.Close()
+			go pool.Close()
+			pg.Close()
+		}()
+		ig := transferIG("igahead", "tahead", []string{"block_time"}, nil)
+		ig.Sources = []config.Source{{Name: "s1", Start: 1}}
+		conf := config.Root{Sources: []config.Source{{Name: "s1", ChainID: 1, URLs: []string{node.URL() + "/nocache"}, PollDuration: 3 * time.Millisecond, BatchSize: 1 + s%3}},
+			Integrations: []config.Integration{ig}}
+		if err := config.ValidateFix(&conf); err != nil {
+			return "setup: " + err.Error()
+		}
+		conn, _ := pool.Acquire(ctx)
+		if err := config.Migrate(ctx, conn, conf); err != nil {
+			conn.Release()
+			return "setup: " + err.Error()
+		}
+		conn.Release()
+		mon := watchAtomicity(pg)
+		mgr := shovel.NewManager(ctx, pool, conf)
+		go func() {
+			for {
+				mgr.Updates()
+			}
+		}()
+		ec := make(chan error)
+		go mgr.Run(ec)
+		if err := <-ec; err != nil {
+			return "first run: " + err.Error()
+		}
+		topIs := func(n uint64) bool {
+			var top uint64
+			for _, r := range pg.Rows("shovel.task_updates") {
+				var k uint64
+				fmt.Sscan(fmt.Sprint(r["num"]), &k)
+				top = max(top, k)
+			}
+			return top == n
+		}
+		wait := func(cond func() bool) bool {
+			for dl := time.Now().Add(2 * time.Second); time.Now().Before(dl); time.Sleep(5 * time.Millisecond) {
+				if cond() {
+					return true
+				}
+			}
+			return false
+		}
+		if !wait(func() bool { return topIs(8) }) {
+			return "the task did not reach the head"
+		}
+		// the source now answers with a SHORTER chain that forks below the recorded position
+		if s%2 == 1 {
+			k := 0
+			pg.SetFaultHook(func(ev fakepg.Event) fakepg.Fault {
+				if ev.Kind == "exec" && strings.Contains(ev.SQL, "delete") {
+					k++
+					if k == 2 {
+						return fakepg.ErrorReply
+					}
+				}
+				return fakepg.NoFault
+			})
+		}
+		node.With(func(c *simnode.Chain) { c.Reorg(5, 2, simnode.GenOpts{Salt: uint64(900 + s), MakeTx: transferMakeTx}) })
+		time.Sleep(120 * time.Millisecond)
+		pg.SetFaultHook(nil)
+		// ... and grows past the recorded position again
+		node.With(func(c *simnode.Chain) { c.Grow(6, simnode.GenOpts{Salt: uint64(950 + s), MakeTx: transferMakeTx}) })
+		var head uint64
+		node.With(func(c *simnode.Chain) { head = uint64(len(c.Blocks) - 1) })
+		reached := wait(func() bool { return topIs(head) })
+		if v := mon.verdict(); v != "ok" {
+			return v
+		}
+		if !reached {
+			return fmt.Sprintf("after the source fell behind and grew again the task never reached the head %d", head)
+		}
+		return "ok"
+	}()
+	e.Add(core.Case{Impl: verdict, Spec: "ok", Key: fmt.Sprintf("c02-manager-source-behind %d", s), Nontrivial: true, Tags: []string{"manager-loop-source-behind-position", "every-committed-state-watched"}})
 }
